@@ -23,7 +23,7 @@ CLAIM = (
     "sub-pixel grid composed with integer offsets, upsampling factors 1..64, NumPy and torch estimators, Fourier/real input and output, "
     "max_shift) the estimator returns the applied shift modulo the cell: exactly for integer shifts, within 1/upsample_factor (one pixel "
     "on the code paths that do not upsample) for sub-pixel shifts; shifting the second image by the result reproduces the first; the returned aligned image "
-    "equals an independent Fourier translation; identical images give zero; swapping the images negates the result."
+    "equals an independent Fourier translation; identical images give zero; swapping the images negates the result; inputs are neither modified nor aliased by the result; and on REUSED buffers (the same array/tensor objects refilled in place, every ordered pair/triple of cases) each call returns the shift of the current contents."
 )
 NOTE = (
     "Trusted: the exact Fourier-shift ground truth (Nyquist-free, band-limited images with a checked unique correlation peak) and the "
